@@ -525,7 +525,7 @@ def flows_to_return(f, call_block):
     return 0 in tainted
 
 
-def result_path_rule(ctx, prog, rule_id, clauses, describe, floor=6):
+def result_path_rule(ctx, prog, rule_id, clauses, describe, floor=6, reviewed=None):
     """From execute_with_ctes downwards (every select-executor callee that receives the same `stmt` and whose rows are the rows its caller
     returns): for each clause, no successful return is reachable without passing a block that satisfies the clause.
     clauses: {name: fn(f, sym, g, atoms_of_block) -> set of satisfying blocks}; describe(name, fn, lines) -> finding text.
@@ -549,9 +549,18 @@ def result_path_rule(ctx, prog, rule_id, clauses, describe, floor=6):
                 out.append((i, hs[0]))
         return out
 
+    reviewed = reviewed or {}
+
     def complete(f, depth=0):
         if f.nice in verdict:
             return verdict[f.nice]
+        short_name = re.sub(r"<impl [^>]*>::", '', f.nice).rsplit('::', 1)[-1]
+        if short_name in reviewed:
+            verdict[f.nice] = True
+            report[f.nice] = {'complete': True, 'reviewed': reviewed[short_name], 'callees_with_the_same_stmt': []}
+            witness[f.nice] = ({}, {}, set())
+            through[f.nice] = set()
+            return True
         verdict[f.nice] = True           # recursion: assume
         s = Sym(f)
         g = cfg(f)
